@@ -291,6 +291,7 @@ func (s *storage) clearLog() error {
 // called by raft.runLoop. no other calls made during this
 // never called with invalid index
 func (s *storage) removeGTE(index, prevTerm uint64) {
+	verifRemoveGTEBegin(s, index)
 	if err := s.log.RemoveGTE(index); err != nil {
 		panic(opError(err, "Log.RemoveGTE(%d)", index))
 	}
